@@ -12,7 +12,7 @@ def setup():
     D = world.mod("mokapot.dataset")
     Q = world.mod("mokapot.qvalues")
     _float = float
-    world.rebind(C, np=symnp, pd=sympd, Parallel=stubs.SParallel, delayed=stubs.sdelayed, os=vfs.os_shim, str=s_str, all=lambda x: symnp.all(x) if hasattr(x, "items") else all_(x))
+    world.rebind(C, np=symnp, pd=sympd, Parallel=stubs.SParallel, delayed=stubs.sdelayed, os=vfs.os_shim, str=s_str, float=s_float, all=lambda x: symnp.all(x) if hasattr(x, "items") else all_(x))
     world.rebind(W, np=symnp, pd=sympd)
     world.rebind(U, np=symnp, pd=sympd, pq=vfs.pq_stub, float=lambda x: x if isinstance(x, core.Sym) else _float(x))
     world.rebind(T, np=symnp, pd=sympd, pq=vfs.pq_stub, pa=vfs.pa_stub)
@@ -30,6 +30,21 @@ def s_str(x):
     if isinstance(x, list) and any(isinstance(v, core.Sym) for v in x):
         return core.SKey(x)
     return _str(x)
+
+
+_float = float
+
+
+def s_float(x=0.0):
+    """float(): a symbolic number becomes a float64 - it keeps its value and renders WITH a decimal point"""
+    import z3
+    from symx import core
+    if isinstance(x, core.SNum):
+        z = z3.ToReal(x.z) if z3.is_int(x.z) else x.z
+        return core.SNum(z, None, True)
+    if isinstance(x, core.SBool):
+        return core.ite(x, 1, 0)
+    return _float(x)
 
 
 class PepRecorder:
@@ -52,7 +67,7 @@ class PsmsStub:
     """The attributes of OnDiskPsmDataset that assign_confidence reads."""
 
 
-def make_collection(ctx, n, cid=0, label_enc="bool", extra_level=False, suffix=".pin", tag=""):
+def make_collection(ctx, n, cid=0, label_enc="bool", extra_level=False, suffix=".pin", tag="", mass_text=False):
     """One input table on the VFS + the dataset attributes assign_confidence uses."""
     import z3
     from symx import sympd, vfs, core
@@ -68,7 +83,10 @@ def make_collection(ctx, n, cid=0, label_enc="bool", extra_level=False, suffix="
     else:
         labcol = [core.ite(SBool(z), 1, -1 if label_enc == "pm1" else 0) for z in lab]
     path = vfs.VPath("/vfs/in/coll%d%s" % (cid, suffix))
-    cols = {"SpecId": ["c%d_psm%d" % (cid, i) for i in range(n)], "Label": labcol, "ScanNr": [SNum(z) for z in scan], "ExpMass": [SNum(z) for z in mass],
+    # mass_text: the user's text file writes each (integral) mass either as 500 or as 500.0 - a symbolic choice per cell
+    massdec = [z3.Bool("massdec%s_%d_%d" % (tag, cid, i)) for i in range(n)] if mass_text else None
+    cols = {"SpecId": ["c%d_psm%d" % (cid, i) for i in range(n)], "Label": labcol, "ScanNr": [SNum(z) for z in scan],
+            "ExpMass": [SNum(z, None, SBool(d)) for z, d in zip(mass, massdec)] if mass_text else [SNum(z) for z in mass],
             "Peptide": [SNum(z) for z in pep]}
     if extra_level:
         cols["ModifiedPeptide"] = [SNum(z) for z in mod]
@@ -86,7 +104,7 @@ def make_collection(ctx, n, cid=0, label_enc="bool", extra_level=False, suffix="
     ps.level_columns = ["Peptide"] + (["ModifiedPeptide"] if extra_level else [])
     ps.metadata_columns = [c for c in cols if c != "feat"]
     ps.metadata_column_types = ["str", "int", "int", "int", "int"] + (["int"] if extra_level else []) + ["str"]
-    sym = dict(n=n, cid=cid, scan=scan, mass=mass, pep=pep, mod=mod, lab=lab, score=sc, extra=extra_level, path=path,
+    sym = dict(n=n, cid=cid, scan=scan, mass=mass, pep=pep, mod=mod, lab=lab, score=sc, extra=extra_level, path=path, massdec=massdec,
                ids=["c%d_psm%d" % (cid, i) for i in range(n)], prots=["prot%d_%d" % (cid, i) for i in range(n)])
     return ps, sym
 
@@ -107,7 +125,8 @@ def level_eq(s, level, i, j):
 def collection_inputs(syms):
     from symx.core import SNum, SBool
     return [dict(scan=[SNum(z) for z in s["scan"]], mass=[SNum(z) for z in s["mass"]], pep=[SNum(z) for z in s["pep"]], mod=[SNum(z) for z in s["mod"]],
-                 labels=[SBool(z) for z in s["lab"]], scores=[SNum(z) for z in s["score"]], extra=s["extra"]) for s in syms]
+                 labels=[SBool(z) for z in s["lab"]], scores=[SNum(z) for z in s["score"]], extra=s["extra"],
+                 mass_dec=[SBool(z) for z in s["massdec"]] if s.get("massdec") else None) for s in syms]
 
 
 def level_oracle(s, level, retained, base, higher_is_better=True):
